@@ -2,7 +2,7 @@
    ONLY statements: each theorem is closed by `exact` of a lemma proved elsewhere and followed by Print Assumptions. *)
 From Coq Require Import ZArith NArith List Bool Lia Permutation FMapPositive.
 Import ListNotations.
-Require Import Base Strings Builtins Interp Machine Spec HeapFacts Refine1 Refine2 Refine3 Refine4 Num FuelMono LinkStack Float Scope RunG SeqProofs CallRules.
+Require Import Base Strings Builtins Interp Machine Spec HeapFacts Refine1 Refine2 Refine3 Refine4 Num FuelMono LinkStack Float Scope RunG SeqProofs CallRules LinkKinds.
 Open Scope Z_scope.
 (* the trampolined machine of interpret.evaluate (frames, cache boxes, requestor chains, tail replacement) computes the big-step call-by-need semantics Spec.bs: same answer, same heap, same world, through states of at most 1 + demand-depth frames *)
 Theorem machine_implements_spec fuel prog stdin h' w' r d :
@@ -179,6 +179,18 @@ Theorem call_complex rec ip h w sp re im i :
   if i =? 0 then DoneG h w (inl (VFloat re)) 0 else if i =? 1 then DoneG h w (inl (VFloat im)) 0 else DoneG h w (inr (mkerr c_value sp)) 0.
 Proof. exact (CallRules.call_complex rec ip h w sp re im i). Qed.
 Print Assumptions call_complex.
+
+(* REGENERATED: the kinds of value that may stand in function position are exactly AS.Callable of abstract_syntax.py as it reads today *)
+Theorem callable_is_the_source_union v :
+  is_callable v = in_union GenKinds.gen_Callable v.
+Proof. exact (LinkKinds.callable_is_the_source_union v). Qed.
+Print Assumptions callable_is_the_source_union.
+
+(* REGENERATED: the classes of function objects (closure, pipe, collect, spread, file handle, built-in module, codec) *)
+Theorem function_classes_audited  :
+  GenKinds.gen_function_classes = audited_function_classes.
+Proof. exact (LinkKinds.function_classes_audited ). Qed.
+Print Assumptions function_classes_audited.
 
 (* a pipe (ㄴㄱ): stages left to right, each receiving what the stage before RETURNED as it is, the last stage's result returned as it is (pipe_spec) *)
 Theorem call_pipe rec ip h w sp i es argv :
